@@ -1,2 +1,306 @@
+/-
+  C12 helper proofs, part 1: the "flag algebra" (memory-safety of a `Ck` computation is preserved
+  by bind, `chk64`, `pure`), and memory-safety of every civil-time function the zone code calls
+  (`civilAdd/civilSub/civilNew/difference` at second granularity, `getWeekday` on a valid month).
+
+  `Wd.Safe x` (no oob / fuel / unset flag, from Cctz/Proofs/WdInt.lean) is the same notion as
+  `Spec.MemSafe x.flags`; the loop lemmas below are safety-only versions (no hypothesis on the
+  day count) of the loop specs of Cctz/Proofs/WdNDay.lean.
+-/
 import Cctz.Model.Tz
 import Cctz.Spec.TableSem
+import Cctz.Proofs.WdNDay
+
+namespace Cctz.Ld
+open Cctz Cctz.Wd
+
+/-! ### flag algebra -/
+
+theorem memSafe_iff_safe (x : Ck α) : Spec.MemSafe x.flags ↔ Safe x := by
+  unfold Spec.MemSafe Safe
+  constructor
+  · rintro ⟨a, b, c⟩; exact ⟨a, c, b⟩
+  · rintro ⟨a, b, c⟩; exact ⟨a, c, b⟩
+
+theorem memSafe_bind (x : Ck α) (f : α → Ck β) :
+    Spec.MemSafe (x >>= f).flags ↔ Spec.MemSafe x.flags ∧ Spec.MemSafe (f x.val).flags := by
+  simp only [memSafe_iff_safe, safe_bind]
+
+theorem memSafe_pure (a : α) : Spec.MemSafe (pure a : Ck α).flags := ⟨rfl, rfl, rfl⟩
+theorem memSafe_chk64 (x : Int) : Spec.MemSafe (chk64 x).flags := ⟨rfl, rfl, rfl⟩
+
+/-- bind when the continuation is safe for every value -/
+theorem safe_bind_all {x : Ck α} {f : α → Ck β} (hx : Safe x) (hf : ∀ a, Safe (f a)) :
+    Safe (x >>= f) := (safe_bind x f).2 ⟨hx, hf _⟩
+
+theorem safe_bind'_all {x : Ck α} {f : α → Ck β} (hx : Safe x) (hf : ∀ a, Safe (f a)) :
+    Safe (x.bind' f) := (safe_bind x f).2 ⟨hx, hf _⟩
+
+/-- bind when the continuation is safe for the values satisfying what `x` establishes -/
+theorem safe_bind_of {x : Ck α} {f : α → Ck β} (P : α → Prop) (hx : Holds x P)
+    (hf : ∀ a, P a → Safe (f a)) : Safe (x >>= f) := (safe_bind x f).2 ⟨hx.1, hf _ hx.2⟩
+
+theorem safe_bind'_of {x : Ck α} {f : α → Ck β} (P : α → Prop) (hx : Holds x P)
+    (hf : ∀ a, P a → Safe (f a)) : Safe (x.bind' f) := safe_bind_of P hx hf
+
+theorem safe_ite {c : Prop} [Decidable c] {x y : Ck α} (hx : c → Safe x) (hy : ¬ c → Safe y) :
+    Safe (if c then x else y) := by
+  split
+  · exact hx ‹_›
+  · exact hy ‹_›
+
+theorem safe_of_holds {x : Ck α} {P : α → Prop} (h : Holds x P) : Safe x := h.1
+
+theorem holds_of_safe {x : Ck α} (h : Safe x) : Holds x (fun _ => True) := ⟨h, trivial⟩
+
+theorem holds_val {x : Ck α} (h : Safe x) : Holds x (fun a => a = x.val) := ⟨h, rfl⟩
+
+theorem holds_and {x : Ck α} {P Q : α → Prop} (h1 : Holds x P) (h2 : Q x.val) :
+    Holds x (fun a => P a ∧ Q a) := ⟨h1.1, h1.2, h2⟩
+
+theorem safe_getC (a : List α) (i : Int) (d : α) (h : 0 ≤ i ∧ i < a.length) : Safe (getC a i d) :=
+  safe_of_ok _ ((getC_ok a i d).2 h)
+
+/-- peel one bind whose continuation is safe for every value (the common case) -/
+macro "safe_step" : tactic => `(tactic| first
+  | exact safe_pure _
+  | exact safe_chk64 _
+  | assumption
+  | (refine safe_bind_all ?_ ?_)
+  | (refine safe_bind'_all ?_ ?_)
+  | (refine (safe_map _ _).2 ?_))
+
+/-- peel binds, introducing the bound values, as long as the pieces are closed by `safe_step` -/
+macro "safe_auto" : tactic => `(tactic| repeat (first | safe_step | intro _))
+
+/-! ### the chunk loops of `n_day` never raise a memory flag -/
+
+theorem centuryLoop_safe (ey d yi : Int) : Safe (Civil.centuryLoop ey d yi) := by
+  fun_induction Civil.centuryLoop ey d yi with
+  | case1 ey d yi n h => exact safe_pure _
+  | case2 ey d yi n h ih =>
+    refine safe_bind'_all (safe_chk64 _) fun _ => ?_
+    refine safe_bind'_all (safe_chk64 _) fun ey' => ?_
+    exact ih ey'
+
+theorem fourLoop_safe (ey d yi : Int) : Safe (Civil.fourLoop ey d yi) := by
+  fun_induction Civil.fourLoop ey d yi with
+  | case1 ey d yi n h => exact safe_pure _
+  | case2 ey d yi n h ih =>
+    refine safe_bind'_all (safe_chk64 _) fun _ => ?_
+    refine safe_bind'_all (safe_chk64 _) fun ey' => ?_
+    exact ih ey'
+
+theorem yearLoop_safe (m ey d : Int) : Safe (Civil.yearLoop m ey d) := by
+  fun_induction Civil.yearLoop m ey d with
+  | case1 ey d h =>
+    exact safe_bind'_all (daysPerYear_safe _ _) fun _ => safe_pure _
+  | case2 ey d h ih =>
+    refine safe_bind'_all (daysPerYear_safe _ _) fun _ => ?_
+    refine safe_bind'_all (safe_chk64 _) fun _ => ?_
+    refine safe_bind'_all (safe_chk64 _) fun ey' => ?_
+    exact ih ey'
+
+theorem monthLoop_safe (ey m d : Int) (h1 : 1 ≤ m) (h2 : m ≤ 12) : Safe (Civil.monthLoop ey m d) := by
+  fun_induction Civil.monthLoop ey m d with
+  | case1 ey m d h =>
+    exact safe_bind'_all (daysPerMonth_safe _ _ h1 h2) fun _ => safe_pure _
+  | case2 ey m d h hn =>
+    rw [daysPerMonth_val _ _ h1 h2] at hn
+    have := daysInMonth_bounds ey m
+    omega
+  | case3 ey m d h hn ih1 ih2 =>
+    refine safe_bind'_all (daysPerMonth_safe _ _ h1 h2) fun _ => ?_
+    refine safe_bind'_all (safe_chk64 _) fun _ => ?_
+    split
+    · refine safe_bind'_all (safe_chk64 _) fun ey' => ?_
+      exact ih1 ey' (by omega) (by omega)
+    · exact ih2 (by omega) (by omega)
+
+/-! ### the normalisers -/
+
+theorem nDay_safe (y m d cd hh mm ss : Int) (h1 : 1 ≤ m) (h2 : m ≤ 12) :
+    Safe (Civil.nDay y m d cd hh mm ss) := by
+  unfold Civil.nDay
+  dsimp only
+  refine safe_bind_all (safe_chk64 _) fun _ => ?_
+  refine safe_bind_all (safe_chk64 _) fun _ => ?_
+  refine safe_bind_all ?_ ?_
+  · split
+    · safe_auto
+    · exact safe_pure _
+  rintro ⟨ey2, cd2⟩
+  dsimp only
+  refine safe_bind_all (safe_chk64 _) fun _ => ?_
+  refine safe_bind_all (safe_chk64 _) fun _ => ?_
+  refine safe_bind_all (safe_chk64 _) fun d1 => ?_
+  refine safe_bind_all ?_ ?_
+  · split
+    · split
+      · exact safe_bind_all (safe_chk64 _) fun _ => safe_bind_all (safe_chk64 _) fun _ => safe_pure _
+      · exact safe_pure _
+    · split
+      · refine safe_bind_all (safe_chk64 _) fun _ => ?_
+        refine safe_bind_all (daysPerYear_safe _ _) fun _ => ?_
+        exact safe_bind_all (safe_chk64 _) fun _ => safe_pure _
+      · exact safe_bind_all (safe_chk64 _) fun _ => safe_bind_all (safe_chk64 _) fun _ => safe_pure _
+  rintro ⟨ey4, d2⟩
+  dsimp only
+  refine safe_bind_all ?_ ?_
+  · split
+    · refine safe_bind_all (yearIndex_safe _ _) fun yi => ?_
+      refine safe_bind_all (centuryLoop_safe _ _ _) ?_
+      rintro ⟨e1, dd1, yi1⟩
+      dsimp only
+      refine safe_bind_all (fourLoop_safe _ _ _) ?_
+      rintro ⟨e2, dd2, yi2⟩
+      exact yearLoop_safe _ _ _
+    · exact safe_pure _
+  rintro ⟨ey5, d3⟩
+  dsimp only
+  refine safe_bind_all ?_ ?_
+  · split
+    · exact monthLoop_safe _ _ _ h1 h2
+    · exact safe_pure _
+  rintro ⟨ey6, m1, d4⟩
+  dsimp only
+  exact safe_bind_all (safe_chk64 _) fun _ => safe_bind_all (safe_chk64 _) fun _ => safe_pure _
+
+theorem cmod12_range (m : Int) : -12 < cmod m 12 ∧ cmod m 12 < 12 := by
+  rw [cmod_eq]; split <;> omega
+
+theorem nMon_safe (y m d cd hh mm ss : Int) : Safe (Civil.nMon y m d cd hh mm ss) := by
+  unfold Civil.nMon
+  have := cmod12_range m
+  split
+  · refine safe_bind_all (safe_chk64 _) fun y1 => ?_
+    dsimp only
+    split
+    · refine safe_bind_all (safe_chk64 _) fun y2 => ?_
+      refine safe_bind_of (fun a => a = cmod m 12 + 12) (holds_chk64 _) ?_
+      rintro _ rfl
+      exact nDay_safe _ _ _ _ _ _ _ (by omega) (by omega)
+    · exact nDay_safe _ _ _ _ _ _ _ (by omega) (by omega)
+  · rename_i h
+    have : m = 12 := by simpa using h
+    subst this
+    exact nDay_safe _ _ _ _ _ _ _ (by omega) (by omega)
+
+theorem nHour_safe (y m d cd hh mm ss : Int) : Safe (Civil.nHour y m d cd hh mm ss) := by
+  unfold Civil.nHour
+  refine safe_bind_all (safe_chk64 _) fun _ => ?_
+  dsimp only
+  split
+  · exact safe_bind_all (safe_chk64 _) fun _ => safe_bind_all (safe_chk64 _) fun _ => nMon_safe ..
+  · exact nMon_safe ..
+
+theorem nMin_safe (y m d hh ch mm ss : Int) : Safe (Civil.nMin y m d hh ch mm ss) := by
+  unfold Civil.nMin
+  refine safe_bind_all (safe_chk64 _) fun _ => ?_
+  dsimp only
+  refine safe_bind_all ?_ ?_
+  · split
+    · exact safe_bind_all (safe_chk64 _) fun _ => safe_bind_all (safe_chk64 _) fun _ => safe_pure _
+    · exact safe_pure _
+  rintro ⟨a, b⟩
+  dsimp only
+  exact safe_bind_all (safe_chk64 _) fun _ => safe_bind_all (safe_chk64 _) fun _ => nHour_safe ..
+
+theorem nSec_safe (y m d hh mm ss : Int) : Safe (Civil.nSec y m d hh mm ss) := by
+  unfold Civil.nSec
+  split
+  · split
+    · split
+      · split
+        · exact safe_pure _
+        · exact nMon_safe ..
+      · exact nHour_safe ..
+    · exact nMin_safe ..
+  · dsimp only
+    refine safe_bind_all ?_ ?_
+    · split
+      · exact safe_bind_all (safe_chk64 _) fun _ => safe_bind_all (safe_chk64 _) fun _ => safe_pure _
+      · exact safe_pure _
+    rintro ⟨a, b⟩
+    dsimp only
+    exact safe_bind_all (safe_chk64 _) fun _ => safe_bind_all (safe_chk64 _) fun _ => nMin_safe ..
+
+/-! ### second-granularity civil arithmetic -/
+
+theorem step_second_safe (f : Fields) (n : Int) : Safe (Civil.step .second f n) := by
+  unfold Civil.step
+  exact safe_bind_all (safe_chk64 _) fun _ => safe_bind_all (safe_chk64 _) fun _ => nSec_safe ..
+
+theorem civilAdd_safe (f : Fields) (n : Int) : Safe (Civil.civilAdd .second f n) :=
+  (safe_map _ _).2 (step_second_safe f n)
+
+theorem civilNew_safe (y m d hh mm ss : Int) : Safe (Civil.civilNew .second y m d hh mm ss) :=
+  (safe_map _ _).2 (nSec_safe ..)
+
+theorem civilSub_safe (f : Fields) (n : Int) : Safe (Civil.civilSub .second f n) := by
+  unfold Civil.civilSub
+  split
+  · exact safe_bind_all (safe_chk64 _) fun _ => (safe_map _ _).2 (step_second_safe ..)
+  · refine safe_bind_all (safe_chk64 _) fun _ => ?_
+    refine safe_bind_all (safe_chk64 _) fun _ => ?_
+    exact safe_bind_all (step_second_safe ..) fun _ => (safe_map _ _).2 (step_second_safe ..)
+
+theorem scaleAdd_safe (v f a : Int) : Safe (Civil.scaleAdd v f a) := by
+  unfold Civil.scaleAdd
+  split <;>
+    exact safe_bind_all (safe_chk64 _) fun _ => safe_bind_all (safe_chk64 _) fun _ =>
+      safe_bind_all (safe_chk64 _) fun _ => safe_chk64 _
+
+theorem ymdOrd_safe (y m d : Int) : Safe (Civil.ymdOrd y m d) := by
+  unfold Civil.ymdOrd
+  refine safe_bind_all (by split <;> first | exact safe_chk64 _ | exact safe_pure _) fun _ => ?_
+  refine safe_bind_all (by split <;> first | exact safe_chk64 _ | exact safe_pure _) fun _ => ?_
+  dsimp only
+  repeat (refine safe_bind_all (safe_chk64 _) fun _ => ?_)
+  exact safe_chk64 _
+
+theorem dayDifference_safe (y1 m1 d1 y2 m2 d2 : Int) : Safe (Civil.dayDifference y1 m1 d1 y2 m2 d2) := by
+  unfold Civil.dayDifference
+  dsimp only
+  refine safe_bind_all (safe_chk64 _) fun _ => ?_
+  refine safe_bind_all (safe_chk64 _) fun _ => ?_
+  refine safe_bind_all (safe_chk64 _) fun _ => ?_
+  refine safe_bind_all (ymdOrd_safe ..) fun _ => ?_
+  refine safe_bind_all (ymdOrd_safe ..) fun _ => ?_
+  refine safe_bind_all (safe_chk64 _) fun _ => ?_
+  refine safe_bind_all ?_ ?_
+  · split
+    · exact safe_bind_all (safe_chk64 _) fun _ => safe_bind_all (safe_chk64 _) fun _ => safe_pure _
+    · split
+      · exact safe_bind_all (safe_chk64 _) fun _ => safe_bind_all (safe_chk64 _) fun _ => safe_pure _
+      · exact safe_pure _
+  rintro ⟨a, b⟩
+  dsimp only
+  exact safe_bind_all (safe_chk64 _) fun _ => safe_chk64 _
+
+theorem difference_safe (f1 f2 : Fields) : Safe (Civil.difference .second f1 f2) := by
+  unfold Civil.difference
+  refine safe_bind_all (dayDifference_safe ..) fun _ => ?_
+  refine safe_bind_all (scaleAdd_safe ..) fun _ => ?_
+  exact safe_bind_all (scaleAdd_safe ..) fun _ => scaleAdd_safe ..
+
+theorem cmod7_range (a : Int) : -7 < cmod a 7 ∧ cmod a 7 < 7 := by
+  rw [cmod_eq]; split <;> omega
+
+theorem getWeekday_safe (f : Fields) (h1 : 1 ≤ f.m) (h2 : f.m ≤ 12) : Safe (Civil.getWeekday f) := by
+  unfold Civil.getWeekday
+  dsimp only
+  refine safe_bind_all (safe_getC _ _ _ ?_) fun off => ?_
+  · simp [Gen.kWeekdayOffsets]; omega
+  · refine safe_getC _ _ _ ?_
+    have := cmod7_range (2400 + cmod f.y 400 - b2i (decide (f.m < 3)) +
+      (cdiv (2400 + cmod f.y 400 - b2i (decide (f.m < 3))) 4 -
+        cdiv (2400 + cmod f.y 400 - b2i (decide (f.m < 3))) 100 +
+        cdiv (2400 + cmod f.y 400 - b2i (decide (f.m < 3))) 400) + (off + f.d))
+    simp [Gen.kWeekdayByMonOff]; omega
+
+/-- `civilNew .second y 1 1 0 0 0` is `y-01-01 00:00:00` -/
+theorem civilNew_jan1_val (y : Int) : (Civil.civilNew .second y 1 1 0 0 0).val = ⟨y, 1, 1, 0, 0, 0⟩ := by
+  simp [Civil.civilNew, Civil.nSec, Civil.align]
+
+end Cctz.Ld
